@@ -136,6 +136,8 @@ pub fn msg(m: &TlsMessage) -> Value {
         TlsMessage::Alert(a) => alert(a),
         TlsMessage::ApplicationData(a) => appdata(a),
         TlsMessage::Heartbeat(h) => heartbeat(h),
+        #[allow(unreachable_patterns)]
+        _ => json!({"t":"variant-unknown-to-the-specification"}),
     }
 }
 
@@ -176,6 +178,8 @@ pub fn cke(c: &TlsClientKeyExchangeContents) -> Value {
         TlsClientKeyExchangeContents::Dh(d) => json!({"t":"ClientKeyExchange","kind":"Dh","data":sl(d)}),
         TlsClientKeyExchangeContents::Ecdh(p) => json!({"t":"ClientKeyExchange","kind":"Ecdh","data":sl(p.point)}),
         TlsClientKeyExchangeContents::Unknown(d) => json!({"t":"ClientKeyExchange","kind":"Unknown","data":sl(d)}),
+        #[allow(unreachable_patterns)]
+        _ => json!({"t":"variant-unknown-to-the-specification"}),
     }
 }
 pub fn hs(h: &TlsMessageHandshake) -> Value {
@@ -198,6 +202,8 @@ pub fn hs(h: &TlsMessageHandshake) -> Value {
         CertificateStatus(c) => cert_status(c),
         NextProtocol(c) => next_protocol(c),
         KeyUpdate(v) => json!({"t":"KeyUpdate","v":v}),
+        #[allow(unreachable_patterns)]
+        _ => json!({"t":"variant-unknown-to-the-specification"}),
     }
 }
 
@@ -236,6 +242,8 @@ pub fn ext(e: &TlsExtension) -> Value {
                    "digest":sl(record_digest),"esni":sl(encrypted_sni)}),
         Grease(t, d) => json!({"t":"Grease","ty":t,"data":sl(d)}),
         Unknown(t, d) => json!({"t":"Unknown","ty":t.0,"data":sl(d)}),
+        #[allow(unreachable_patterns)]
+        _ => json!({"t":"variant-unknown-to-the-specification"}),
     };
     v.as_object_mut().unwrap().insert("tag".into(), json!(tag));
     v
@@ -256,6 +264,8 @@ pub fn ecparams(p: &ECParameters) -> Value {
         ECParametersContent::NamedGroup(g) => json!({"t":"NamedGroup","g":g.0}),
         ECParametersContent::ExplicitPrime(e) => json!({"t":"ExplicitPrime","p":sl(e.prime_p),"a":sl(e.curve.a),"b":sl(e.curve.b),
             "base":sl(e.base.point),"order":sl(e.order),"cofactor":sl(e.cofactor)}),
+        #[allow(unreachable_patterns)]
+        _ => json!({"t":"variant-unknown-to-the-specification"}),
     };
     json!({"ct":p.curve_type.0,"content":content})
 }
@@ -293,6 +303,8 @@ pub fn dbody(b: &DTLSMessageHandshakeBody) -> Value {
         CertificateStatus(c) => cert_status(c),
         NextProtocol(c) => next_protocol(c),
         Fragment(d) => json!({"t":"Fragment","data":sl(d)}),
+        #[allow(unreachable_patterns)]
+        _ => json!({"t":"variant-unknown-to-the-specification"}),
     }
 }
 pub fn dmsg(m: &DTLSMessage) -> Value {
@@ -303,6 +315,8 @@ pub fn dmsg(m: &DTLSMessage) -> Value {
         DTLSMessage::Alert(a) => json!({"t":"alert","sev":a.severity.0,"code":a.code.0,"frag":m.is_fragment()}),
         DTLSMessage::ApplicationData(a) => json!({"t":"app","blob":sl(a.blob),"frag":m.is_fragment()}),
         DTLSMessage::Heartbeat(h) => json!({"t":"hb","hbt":h.heartbeat_type.0,"plen":h.payload_len,"payload":sl(h.payload),"frag":m.is_fragment()}),
+        #[allow(unreachable_patterns)]
+        _ => json!({"t":"variant-unknown-to-the-specification"}),
     }
 }
 pub fn dmsgs(v: &[DTLSMessage]) -> Value {
